@@ -9,10 +9,15 @@
    LAPACK itself is NOT modelled: its results are universally quantified inputs with their specification as
    hypotheses.  The remaining numeric clauses of C05 (triangular R from numpy, A v = w v, Moore-Penrose, expm, polar,
    orthogonal_columns, speigs, complex entries) are NOT proved; they are checked by the dense oracle of harness/c05.py.
-   Model/Factor2.v (lq by transposition, eig plan) and Model/FactorDense.v (dense values) are not executed against the
-   code by a correspondence stream of their own: lq_charges IS qr_charges (correspondence-checked, also on the lq cases)
-   on the transposed matrix, the dense assembly is linked to the checked svd plan by T05_svd_inner_sizes, the eig plan
-   and pos_diag are transcriptions of _eig_worker / qr tied to the code by reading and by the dense oracle only. *)
+   Tie of Model/Factor2.v and Model/FactorDense.v to the code (Model/FactorCase2.v, evaluated by harness/c05.py on every
+   run): lq_charges is run on the blocked structure of the matrix ITSELF against npc.lq (check_lq_case: L.legs[1], Q.qtotal,
+   L.qtotal, both modes); eig_plan, pos_diag and the svd assembly (kept, svd_U, svd_V, svd_S, inner_sizes, svd_U_full) are
+   run against npc.eigh / eig, npc.qr(pos_diag_R=True) and npc.svd in the 'plan' stream, where the per-block LAPACK entry
+   points (np.linalg.eigh / eig / qr, np_conserved.svd_flat) are replaced in the runner process by a stub returning
+   recorded integer-valued matrices (any kept rank, zeros on the R diagonal included) - the models are parametric in
+   exactly these per-block results, so the comparison is exact (check_eig_case: resv._qdata/_data and resw;
+   check_posdiag_case: the stored q / r blocks or NaN; check_svd_dense_case: U / VH _qdata and blocks, S, block sizes of
+   VH.legs[0]).  Model/FactorDense2.v (eig_A / eig_V, pairs_L / pairs_R) is proof vocabulary built on these definitions. *)
 From TenpyV Require Import Base.Prelude Model.ChargeL Model.Leg Model.Factor Proofs.LegP Proofs.FactorP
   Model.Factor2 Model.FactorDense Model.FactorDense2 Proofs.FactorP2 Proofs.FactorDenseP Proofs.FactorDenseP2.
 Open Scope Z_scope.
